@@ -19,6 +19,7 @@ import Restful.Lemmas.RouteUnique
 import Restful.Lemmas.TieImpParams
 import Restful.Lemmas.TieImpUntok
 import Restful.Lemmas.TieImpPath
+import Restful.Lemmas.TieImpJsrParams
 namespace Restful
 namespace Props
 variable (E : ReEnv)
@@ -371,3 +372,4 @@ end Restful
 -- also: Restful.TieImp.T4.extract_parameters
 -- also: Restful.TieImp.T2.untokenize_path
 -- also: Restful.TieImp.T2.tokenize_path
+-- also: Restful.TieImp.jsr_extract_parameters
